@@ -164,6 +164,43 @@ CHECKS = {
         note=TRUSTED + " vsched assumptions as for C03. Inside one cluster history goroutine timing is not controlled (a signature is reported only if its simplest history reproduces 3/3 times in fresh processes); concurrent distributed histories run free.",
         design_ref="§5 C12",
     ),
+    "C01": dict(
+        category="exploration",
+        technique="bounded-exhaustive enumeration of well-typed slice programs x data sets x shard counts, each run on the real local executor and compared with an independent sequential reference evaluator",
+        text=("Programs are plain data (source in {Const, ReaderFunc, ScanReader} + a chain of operators from Map, Filter, Flatmap(0/1/2/5/variable outputs), Fold, Head, Reduce, Cogroup (single, with self, with a second source), Reshuffle, "
+              "Repartition, Reshard, Prefixed+Reduce, Scan, WriterFunc, plus fixed DAG shapes: shared sub-slice consumed with two shard counts, nested shuffles, 3-way Cogroup) built by one registered Func from the AST. Quick: every chain of <=1 operator "
+              "over the full 29-variant alphabet x 336 source configurations (rows 0,1,3,4,5,9 around the internal vector size set to 4; keys equal/distinct/colliding; 1-3 shards), all DAG shapes, and every well-typed chain of 2 operators over a "
+              "20-variant core alphabet x 24 configurations, each at Parallelism 1 and 4 (33k runs). Thorough: depth 2 over all configurations, depth 3 over the reduced ones, plus runs at the real vector size 128 (347k runs). Oracle: the scanned rows "
+              "equal the reference as a multiset, and as a sequence where the program fixes the order; Scan/WriterFunc callbacks observe every row of every shard exactly once followed by exactly one end-of-stream; runs terminate."),
+        note=TRUSTED + " The reference evaluator (harness/refeval/eval.go) imports only the standard library. One genuine deviation is recorded in known_findings.jsonl (side effects repeated for a sub-slice read with two partition counts). "
+             "Seeded random generation of larger programs (mentioned by the property's quantifier) is another family and not done.",
+        design_ref="§4 E5, §5 C01",
+    ),
+    "C02": dict(
+        category="fault_enumeration",
+        technique="enumeration of every labelled RPC boundary of a recorded failure-free history as a machine-kill / stream-cut point (all single faults; pairs in thorough), each run in a fresh process on the in-process cluster",
+        text=("Programs map-only, reduce, fold (quick) + cogroup, two-stage shuffle, Func over a reused Result (thorough) run on a verifsystem cluster whose RPCs all pass an interposer. The label alphabet is the union of the Worker.Compile/Run/Stat/Read "
+              "histories of 8 failure-free runs; fault points = every label x {machine killed before the request arrives, after the handler ran but before the reply, after the reply} + Worker.Read replies cut at byte 0, mid, last and at every batch end, "
+              "victim = callee and (for Worker.Run and final-scan reads) every other live machine; kills during the final Scanner pass included; thorough adds pairs (second fault taken from the history observed after the first fired). Two configurations: "
+              "M1 consecutive-loss limit off and replacements available => the run and scan MUST succeed with exactly the failure-free rows; M2 production setting => exact rows, or an error (a failing scan must have delivered a correct sub-multiset); "
+              "never wrong rows, hang (60 s watchdog, 3x re-run, goroutine dump) or crash. Only faults that actually fired count as evidence."),
+        note=TRUSTED + " Within one cluster run goroutines are scheduled by the Go runtime: fault points are exhaustive, interleavings are not (M1 failures and hangs must reproduce 3/3). Machine-combiner sessions are excluded by the property. "
+             "Three signatures of one genuine defect (scan resumed after recomputation of a nondeterministic task output) are recorded in known_findings.jsonl.",
+        design_ref="§4 E4, §5 C02",
+    ),
+    "C14": dict(
+        category="model_checking", engine="vsched",
+        technique="exhaustive enumeration of scheduler configurations on the real schedule(); controlled-scheduler exploration of the real machineManager event loop and of the local limiter; forced exit paths of the executor's Run with a black-box capacity probe",
+        text=("(a) The real unexported schedule() is called on EVERY configuration of <=3 machines (capacity 1-3, any load) and <=3 queued requests (procs 1-3, priority 0-1), heaps built in every insertion order (212k calls; <=4x4 in thorough, 11M calls), and compared with "
+              "an independent first-fit-decreasing-with-reservation reference plus statement-level oracles (fits, priority order, queues restored, heap indices consistent). (b) The real machineManager.Do runs, source-instrumented, under the vsched scheduler on "
+              "verifsystem machines: 2-3 requesters Offer / cancel / receive / Done(ok | remote error | transport error), optional machine stop; every interaction is observed in the manager's own order through channel watches and checked against a ledger: "
+              "capacity never exceeded, no new work for machines on probation, priority order, every proc returned exactly once (ledger and the manager's own taskProcs at quiescence), no fitting request left waiting (deadlock), no more machines than justified; "
+              "all schedules with <=1 (quick) / 2 (thorough) deviations x all environment choices. (c) Every exit path of (*bigmachineExecutor).Run is forced through the RPC interposer (compile/commit-combiner/run: ok, remote, fatal, transport, machine killed; "
+              "missing dependency location; cancellation) on machine-capped clusters; afterwards the manager's books must be zero and an Exclusive task per machine must be granted. (d) Local mode under vsched: 3 concurrent one-task runs, Parallelism 1 and 2, "
+              "with and without an Exclusive task: at most p tasks inside user code at once, an exclusive task alone."),
+        note=TRUSTED + " vsched assumptions as for C03; machine boot is confined to a non-explored prelude; a machine stop is made synchronous (the harness waits until the driver has seen it).",
+        design_ref="§5 C14",
+    ),
 }
 
 NOT_YET = "check designed in DESIGN.md §5 but not yet built/validated in this tree; not claimed"
